@@ -221,13 +221,14 @@ Definition update1 (u : url) (now : Z) (j : jar) (m : morsel) : jar :=
   else
     let cpath := cookie_path u m in
     let k := (d, rstrip SLASH cpath, name) in
+    let via_expires := match m_expires m with
+                       | EX_val t => if expires_value_used t then expire_cookie j1 t k else j1
+                       | _ => j1
+                       end in
     let j2 := match m_maxage m with
               | MA_val dl => expire_cookie j1 (max_age_deadline now dl) k
-              | MA_invalid => j1
-              | MA_none => match m_expires m with
-                           | EX_val t => if expires_value_used t then expire_cookie j1 t k else j1
-                           | _ => j1
-                           end
+              | MA_invalid => if invalid_max_age_uses_expires then via_expires else j1
+              | MA_none => via_expires
               end in
     set_cookies j2 (upsert k {| c_value := m_value m; c_path := cpath; c_secure := m_secure m |} (j_cookies j2)).
 
@@ -262,7 +263,7 @@ Definition dict_of (emits : list (str * str)) : dict :=
 Definition sendable (j : jar) (u : url) (kc : key * cookie) : bool :=
   let '(k, c) := kc in
   negb (mem_dn (k_dom k, k_name k) (j_host_only j) && negb (list_eqb (k_dom k) (u_host u)))
-  && negb (Nat.ltb (length (u_path u)) (length (c_path c)))
+  && starts_with (c_path c) (u_path u)         (* request_url.path.startswith(cookie["path"]) *)
   && negb (negb (u_secure u) && c_secure c).
 
 Definition group (j : jar) (d p : str) : list (key * cookie) :=
